@@ -124,6 +124,9 @@ class SFloat:
 
     def _mk(self, e, lo, hi, g, minmag=None):
         """Result of an operation whose exact value is the term e in [lo, hi] on grid g."""
+        h = cur().trig.get(("encl", z3.simplify(e).get_id()))
+        if h is not None:  # a relational enclosure declared (and separately proved) by the harness
+            lo, hi = max(lo, h[0]), min(hi, h[1])
         M = max(abs(lo), abs(hi))
         if M > _pow2(900):
             raise Unsupported("fp: magnitude out of the supported range")
@@ -264,7 +267,7 @@ class SFloat:
     def floor(self):
         if self.is_integer():
             return SFloat(self)
-        r = SFloat(z3.ToReal(z3.ToInt(self.t)), math.floor(self.lo), math.floor(self.hi), 0)
+        r = SFloat(z3.ToReal(int_floor(self.t)), math.floor(self.lo), math.floor(self.hi), 0)
         r.src = self.t.get_id()
         cur().keep.append(self.t)
         return r
@@ -277,19 +280,24 @@ class SFloat:
         lo = math.floor(self.lo) if self.lo >= 0 else -math.floor(-self.lo)
         hi = math.floor(self.hi) if self.hi >= 0 else -math.floor(-self.hi)
         if self.lo >= 0:
-            return SFloat(z3.ToReal(z3.ToInt(t)), lo, hi, 0)
-        return SFloat(z3.ToReal(z3.If(t >= 0, z3.ToInt(t), -z3.ToInt(-t))), lo, hi, 0)
+            return SFloat(z3.ToReal(int_floor(t)), lo, hi, 0)
+        return SFloat(z3.ToReal(z3.If(t >= 0, int_floor(t), -int_floor(-t))), lo, hi, 0)
 
     def round_half_even(self):
-        """Python's round(x) (no ndigits) / numpy around: nearest integer, ties to even."""
+        """Python's round(x) (no ndigits) / numpy around: nearest integer, ties to even (relational: fresh Int)."""
         if self.is_integer():
             return SFloat(self)
-        t = self.t
-        f = z3.ToInt(t)
-        fr = t - z3.ToReal(f)
-        half = rv(Fraction(1, 2))
-        r = z3.If(fr < half, f, z3.If(fr > half, f + 1, z3.If(f % 2 == 0, f, f + 1)))
-        return SFloat(z3.ToReal(r), math.floor(self.lo), math.floor(self.hi) + 1, 0)
+        p = cur()
+        key = ("rhe", z3.simplify(self.t).get_id())
+        if key not in p.trig:
+            p.fresh += 1
+            n = z3.Int(f"rnd!{p.fresh}")
+            d = self.t - z3.ToReal(n)
+            half = rv(Fraction(1, 2))
+            _define(p, n, z3.And(d <= half, d >= -half, z3.Implies(z3.Or(d == half, d == -half), n % 2 == 0)))
+            p.trig[key] = n
+            p.keep.append(z3.simplify(self.t))
+        return SFloat(z3.ToReal(p.trig[key]), math.floor(self.lo), math.floor(self.hi) + 1, 0)
 
     def as_int_term(self):
         if not self.is_integer():
@@ -318,10 +326,63 @@ class SFloat:
         return f"SFloat({self.t} in [{float(self.lo)}, {float(self.hi)}] g={self.g})"
 
 
+def _define(p, var, c):
+    """Add a constraint that *defines* the fresh variable `var` (used by sliced() to drop definitions nothing depends on)."""
+    p.assume(c)
+    p.apps.setdefault("fpdef", []).append((str(var), p.assumes[-1]))
+
+
+def sliced(path, goal, extra=()):
+    """The path's constraints without the definitions of fresh rounding/floor variables that neither the goal, the path
+    condition nor the harness's own assumptions (transitively) mention.  Dropping hypotheses is sound for proving."""
+    from .core import free_vars
+
+    defs = {}
+    for v, c in path.apps.get("fpdef", []):
+        defs.setdefault(v, []).append(c)
+    def_ids = {c.get_id() for cs in defs.values() for c in cs}
+    keep = [c for c in path.constraints() if c.get_id() not in def_ids]
+    seen, todo = set(), set()
+    for t in [goal, *keep, *extra]:
+        todo |= free_vars(t)
+    out = list(keep)
+    while todo:
+        v = todo.pop()
+        if v in seen:
+            continue
+        seen.add(v)
+        for c in defs.get(v, []):
+            out.append(c)
+            todo |= free_vars(c) - seen
+    return out
+
+
+MODE = ["exact"]  # "exact": relational round-to-nearest-even; "relaxed": |r - e| <= half an ulp of the largest binade (sound over-approximation)
+
+
+class mode:
+    """with fp.mode("relaxed"): ... selects the rounding encoding for the code run inside."""
+
+    def __init__(self, m):
+        assert m in ("exact", "relaxed")
+        self.m = m
+
+    def __enter__(self):
+        self.prev = MODE[0]
+        MODE[0] = self.m
+
+    def __exit__(self, *a):
+        MODE[0] = self.prev
+        return False
+
+
 def rn(e, lo, hi, g=None, minmag=None):
     """Round the exact real term e (enclosure [lo, hi], grid g or a minimal non-zero magnitude) to double."""
     p = cur()
     es = z3.simplify(e)
+    if z3.is_rational_value(es):  # constant folding: CPython's own rounding
+        fr = Fraction(es.numerator_as_long(), es.denominator_as_long())
+        return SFloat(float(fr))
     key = ("rn", es.get_id())
     if key in p.trig:
         return SFloat(*p.trig[key])
@@ -342,32 +403,95 @@ def rn(e, lo, hi, g=None, minmag=None):
         else:
             raise Unsupported("fp.rn: enclosure contains 0 and no minimal magnitude is known")
         bmin = _binade(mm)
-        if _pow2(bmin) > mm:
-            bmin -= 1
     if bmin < -900 or bmax > 900:
         raise Unsupported("fp.rn: outside the supported exponent range")
-    if bmax - bmin > 80:
-        raise Unsupported(f"fp.rn: {bmax - bmin + 1} binades (enclosure too wide)")
-    p.fresh += 1
-    r = z3.Real(f"rn!{p.fresh}")
-    q = z3.Int(f"rq!{p.fresh}")
-    ae = z3.If(e >= 0, e, -e) if lo < 0 < hi else (e if lo >= 0 else -e)
-    cases = []
-    for b in range(bmin, bmax + 1):
-        u = rv(_pow2(b - 52))
-        hu = rv(_pow2(b - 53))
-        d = e - z3.ToReal(q) * u
-        ad = z3.If(d >= 0, d, -d)
-        cases.append(z3.And(ae >= rv(_pow2(b)), ae < rv(_pow2(b + 1)), r == z3.ToReal(q) * u, ad <= hu, z3.Implies(ad == hu, q % 2 == 0)))
-    if has_zero:
-        cases.append(z3.And(e == 0, r == 0, q == 0))
-    p.assume(z3.Or(*cases))
     rlo, rhi = _rn_frac(lo, False), _rn_frac(hi, True)
-    p.assume(z3.And(r >= rv(rlo), r <= rv(rhi)))
+    p.fresh += 1
+    if MODE[0] == "relaxed" or bmax - bmin > 64:
+        # (also used in exact mode for operations spanning more than 64 binades: still sound, only weaker)
+        # every double result differs from the exact one by at most half an ulp of its own binade <= half an ulp of the largest
+        r = z3.Real(f"rx!{p.fresh}")
+        hu = rv(_pow2(bmax - 53))
+        _define(p, r, z3.And(r - e <= hu, e - r <= hu, r >= rv(rlo), r <= rv(rhi)))
+        if M <= 2 ** 53:
+            # integers below 2^53 are doubles and rounding is monotone: floor(e) <= rn(e) <= ceil(e), and rn(e) = e when e is an integer
+            _define(p, r, z3.And(r >= z3.ToReal(int_floor(e)), r <= -z3.ToReal(int_floor(-e))))
+    else:
+        r = z3.Real(f"rn!{p.fresh}")
+        q = z3.Int(f"rq!{p.fresh}")
+        ae = z3.If(e >= 0, e, -e) if lo < 0 < hi else (e if lo >= 0 else -e)
+        cases = []
+        for b in range(bmin, bmax + 1):
+            u = rv(_pow2(b - 52))
+            hu = rv(_pow2(b - 53))
+            d = e - z3.ToReal(q) * u
+            ad = z3.If(d >= 0, d, -d)
+            cases.append(z3.And(ae >= rv(_pow2(b)), ae < rv(_pow2(b + 1)), r == z3.ToReal(q) * u, ad <= hu, z3.Implies(ad == hu, q % 2 == 0)))
+        if has_zero:
+            cases.append(z3.And(e == 0, r == 0, q == 0))
+        _define(p, r, z3.Or(*cases))
+        _define(p, r, z3.And(r >= rv(rlo), r <= rv(rhi)))
     res = (r, rlo, rhi, bmin - 52)
     p.trig[key] = res
     p.apps.setdefault("rn", []).append((r, e))
     return SFloat(*res)
+
+
+def declare_enclosure(e, lo, hi):
+    """Relational enclosure for an exact term that interval arithmetic cannot see (e.g. the difference of two
+    dates that the assumptions keep close).  It is *also* added as a constraint, so it can never enlarge the set of
+    behaviours; the harness proves that it follows from its other assumptions (no vacuity)."""
+    p = cur()
+    es = z3.simplify(e)
+    p.keep.append(es)
+    p.trig[("encl", es.get_id())] = (Fraction(lo), Fraction(hi))
+    p.assume(z3.And(e >= rv(Fraction(lo)), e <= rv(Fraction(hi))))
+    return z3.And(e >= rv(Fraction(lo)), e <= rv(Fraction(hi)))
+
+
+def int_floor(e):
+    """z3 Int term equal to floor(e).  When e is a rational-linear form over integer-valued atoms the defining
+    inequalities are stated over the integers (L*fl <= L*e < L*fl + L with L clearing the denominators): z3 decides those
+    at once, whereas the same fact phrased through to_int/to_real of a quotient sends it into a long search (measured)."""
+    from .core import _lin
+
+    p = cur()
+    es = z3.simplify(e)
+    if z3.is_rational_value(es):
+        return z3.IntVal(math.floor(Fraction(es.numerator_as_long(), es.denominator_as_long())))
+    key = ("ifloor", es.get_id())
+    if key in p.trig:
+        return p.trig[key]
+    p.keep.append(es)
+    atoms, const = _lin(es)
+    ints = []
+    ok = True
+    for _i, (term, c) in atoms.items():
+        if z3.is_app(term) and term.decl().kind() == z3.Z3_OP_TO_REAL:
+            ints.append((term.children()[0], c))
+        elif term.sort() == z3.IntSort():
+            ints.append((term, c))
+        else:
+            ok = False
+            break
+    if not ok:
+        res = z3.ToInt(e)
+    else:
+        L = 1
+        for _t, c in ints:
+            L = L * c.denominator // math.gcd(L, c.denominator)
+        L = L * const.denominator // math.gcd(L, const.denominator)
+        p.fresh += 1
+        fl = z3.Int(f"fl!{p.fresh}")
+        tot = z3.IntVal(0)
+        for t, c in ints:
+            tot = tot + int(c * L) * t
+        # L*const may be fractional only if const's denominator does not divide L (it does, by construction)
+        tot = tot + int(const * L)
+        _define(p, fl, z3.And(L * fl <= tot, tot < L * fl + L))
+        res = fl
+    p.trig[key] = res
+    return res
 
 
 def from_int(t, lo, hi):
@@ -379,12 +503,16 @@ def from_int(t, lo, hi):
     return SFloat(z3.ToReal(t), lo, hi, 0)
 
 
-def fresh_float(name, lo, hi, g):
-    """A free double variable that is a multiple of 2^g inside [lo, hi] (constraint added to the path)."""
+def fresh_float(name, lo, hi, g, encode_grid=True):
+    """A free double variable that is a multiple of 2^g inside [lo, hi] (constraint added to the path).
+    encode_grid=False leaves the grid out of the SMT encoding (an over-approximation; the static grid fact,
+    which is true of the real values, is still used to elide roundings)."""
     p = cur()
     x = z3.Real(name)
     k = z3.Int(name + "!k")
-    p.assume(z3.And(x == z3.ToReal(k) * rv(_pow2(g)), x >= rv(Fraction(lo)), x <= rv(Fraction(hi))))
+    if encode_grid and MODE[0] == "exact":
+        p.assume(x == z3.ToReal(k) * rv(_pow2(g)))
+    p.assume(z3.And(x >= rv(Fraction(lo)), x <= rv(Fraction(hi))))
     if max(abs(Fraction(lo)), abs(Fraction(hi))) > _pow2(g + 53):
         raise Unsupported("fresh_float: not every grid point is a double")
     return SFloat(x, lo, hi, g)
